@@ -58,6 +58,18 @@ register(
     "DESIGN.md §3 C16",
 )
 
+register(
+    "C09",
+    "exhaustive schedule exploration of the process pool: TLC state graph of tla/Pool.tla cross-checked with a Python enumerator, every schedule replayed through the real worker functions in a virtual pool (per-worker globals, real shared memory); footprint/race pass; forced-order runs on the real multiprocessing.Pool",
+    "For every configuration (getresp x ic x stype x time x 1-D/2-D; fdepsd resp) every feasible (worker,task) "
+    "completion history for LF<=4 tasks and W<=3 workers is executed on the real initialisers/worker functions and "
+    "every output is compared byte for byte with the serial result; per-task write sets are shown disjoint and "
+    "independent of other tasks' outputs; the pool model is validated against real mp.Pool runs with forced orders.",
+    "Trusted: task atomicity (checked by the footprint pass, not assumed), the 12-line TLA+ model of in-order dispatch "
+    "(cross-checked with the enumerator and with real-pool runs), fork start method; LF<=4, W<=3.",
+    "DESIGN.md §3 C09",
+)
+
 
 def build():
     checks = []
